@@ -64,3 +64,19 @@ Proof. vm_compute. reflexivity. Qed.
 (* outside the preconditions the model reports the out-of-bounds read: mu edges ending below 1 *)
 Example ex_mu_short_oob : bin_kmu kmu_gen 2 allE [0; 1 # 4]%Q (exW 2) 1 (range 2) (fun _ => 0) = Oob.
 Proof. vm_compute. reflexivity. Qed.
+
+(* extended theorems: a mesh that is not symmetric under (a, b) -> (-a, -b), an odd and an even size *)
+Example ex_hermitian_odd : kmu_full_wsum 5 exE exM (exW 5) 1 1 = kmu_half_wsum 5 exE exM (exW 5) 1 1.
+Proof. vm_compute. reflexivity. Qed.
+Example ex_hermitian_even : kmu_full_wsum 4 allE [0; 1]%Q (exW 4) 0 0 = kmu_half_wsum 4 allE [0; 1]%Q (exW 4) 0 0.
+Proof. vm_compute. reflexivity. Qed.
+Example ex_pn4 : (P_n_even (1 # 3) 4 == -7 # 18)%Q.
+Proof. vm_compute. reflexivity. Qed.
+
+(* hypotheses of break_drops_nothing / thread_independent: slab arrays of the right size, a second valid schedule *)
+Example hyp_slab_len : len (zeros (3 * (len exE - 1) * (len exM - 1))) = 3 * (len exE - 1) * (len exM - 1).
+Proof. reflexivity. Qed.
+Example hyp_sched2 : valid_sched 16 (fun i => (i * 16) / 5 mod 16).
+Proof. intros i. apply Z.mod_pos_bound. lia. Qed.
+Example hyp_pole_row : 0 <= 1 < len exE - 1.
+Proof. vm_compute. split; [discriminate|reflexivity]. Qed.
